@@ -325,3 +325,90 @@ def negation_raw(V):
     if acc(r) and not nested:
         V.check(r[1] is x or same(r[1], x), 'not:altered', d)
     V.cover('accept' if acc(r) else 'reject')
+
+
+# ------------------------------------------------------------------ negation of a class and of its subclass; combinators behind assignments
+class NParent(int, Rule):
+    ge = 0
+
+
+class NChild(NParent):
+    le = 10
+
+
+class NGrand(NChild):
+    multiple_of = 2
+
+
+@ob('negation-subclass', marks=['accept', 'reject'], budget=(40, 100),
+    bounds='Rule classes Parent(ge=0) > Child(le=10) > Grand(multiple_of=2); their negations are built in a solver-picked order (a '
+           'negation built for a base must not be taken for its subclass); x unbounded solver int: ~T accepts exactly when T rejects, '
+           'for each of the three, and ~~T is T')
+def negation_subclass(V):
+    order = V.pick('order', ['PCG', 'GCP', 'CPG', 'PGC'])
+    cls = {'P': NParent, 'C': NChild, 'G': NGrand}
+    neg = {}
+    for k in order:
+        neg[k] = ~cls[k]
+    x = V.int('x')
+    which = V.pick('which', ['P', 'C', 'G'])
+    T, N = cls[which], neg[which]
+    inner = acc(conv(T, x))
+    r = conv(N, x)
+    d = lambda: 'negations built in order %s: (~%s)(%r) -> %s, %s alone %s' % (order, T.__name__, x, r[0], T.__name__, 'accepts' if inner else 'rejects')
+    V.check(acc(r) == (not inner), 'not:verdict:subclass', d)
+    V.check((~N) is T, 'algebra:double-negation:subclass', lambda: 'order %s: ~~%s is %r' % (order, T.__name__, ~N))
+    V.cover('accept' if acc(r) else 'reject')
+
+
+class NSmall(int, Rule):
+    le = 5
+
+
+class NEven(int, Rule):
+    multiple_of = 2
+
+
+class NItem(Schema):
+    big: ~NSmall = 9
+    code: NSmall ^ NEven = 3
+    either: NSmall | NEven = 1
+    both: NSmall & NEven = 2
+
+
+@ob('combinators-behind-assignment', marks=['accept', 'reject'], budget=(60, 150),
+    bounds='Schema fields typed ~Small, Small ^ Even, Small | Even, Small & Even (Small: le=5, Even: multiple_of=2); a solver int '
+           'assigned through the constructor, attribute assignment, item assignment and update(): each route accepts exactly when the '
+           'combinator called directly accepts, and stores the same value')
+def combinators_behind_assignment(V):
+    fld = V.pick('field', ['big', 'code', 'either', 'both'])
+    T = {'big': ~NSmall, 'code': NSmall ^ NEven, 'either': NSmall | NEven, 'both': NSmall & NEven}[fld]
+    x = V.int('x', -3, 12)
+    direct = conv(T, x)
+    route = V.pick('route', ['constructor', 'setattr', 'setitem', 'update'])
+    try:
+        if route == 'constructor':
+            inst = NItem(**{fld: x})
+        else:
+            inst = NItem()
+            if route == 'setattr':
+                if fld == 'big':
+                    inst.big = x
+                elif fld == 'code':
+                    inst.code = x
+                elif fld == 'either':
+                    inst.either = x
+                else:
+                    inst.both = x
+            elif route == 'setitem':
+                inst[fld] = x
+            else:
+                inst.update({fld: x})
+        got = ('ok', inst[fld])
+    except exc.ParseError:
+        got = ('err',)
+    d = lambda: 'field %s <- %r via %s: %r ; the combinator called directly: %r' % (fld, x, route, got, direct if acc(direct) else ('err',))
+    V.check((got[0] == 'ok') == acc(direct), 'assignment:verdict:' + fld, d)
+    if got[0] == 'ok':
+        V.check(same(got[1], direct[1]), 'assignment:value:' + fld, d)
+    V.cover('accept' if got[0] == 'ok' else 'reject')
